@@ -377,9 +377,18 @@ func (w *World) cMsg(p *Packet) string {
 		return ""
 	}
 
+	if fp := str("from_prior"); fp != "" {
+		iss, sub, signer, ok := w.readFromPrior(p, fp)
+		if !ok {
+			return ""
+		}
+
+		return fmt.Sprintf("(MRotate %d %d %d %d %d)", w.did(iss), w.did(sub), w.did(signer), w.in.id("k:"+rawKey(p.FromKey)), w.in.id("k:"+rawKey(p.ToKey)))
+	}
+
 	switch p.Type {
 	case dxRequest:
-		return fmt.Sprintf("(MRequest DX %d %d %d %s)", w.th(p.Thread), w.inv(p.PThid), w.did(str("did")), w.cODoc(absDoc(attachedDoc(p.Plain))))
+		return fmt.Sprintf("(MRequest DX %d %d %d %d %s)", w.th(p.Thread), w.th(str("@id")), w.inv(p.PThid), w.did(str("did")), w.cODoc(absDoc(attachedDoc(p.Plain))))
 	case dxResponse:
 		return fmt.Sprintf("(MResponse DX %d %d %s 0)", w.th(p.Thread), w.did(str("did")), w.cODoc(absDoc(attachedDoc(p.Plain))))
 	case dxComplete:
@@ -387,7 +396,7 @@ func (w *World) cMsg(p *Packet) string {
 	case lcRequest:
 		cd, cdoc := legacyConn(p.Plain["connection"])
 
-		return fmt.Sprintf("(MRequest LC %d %d %d %s)", w.th(p.Thread), w.inv(p.PThid), w.did(cd), w.cODoc(absDoc(cdoc)))
+		return fmt.Sprintf("(MRequest LC %d %d %d %d %s)", w.th(p.Thread), w.th(str("@id")), w.inv(p.PThid), w.did(cd), w.cODoc(absDoc(cdoc)))
 	case lcResponse:
 		cd, cdoc, signer := legacySigned(p.Plain["connection~sig"])
 
@@ -410,6 +419,65 @@ func (w *World) cMsg(p *Packet) string {
 	}
 
 	return ""
+}
+
+// readFromPrior reads a from_prior compact JWS: issuer, subject and the DID (as the receiving agent resolves it) in
+// whose document the kid names a key under which the signature verifies ("" if none; ok=false if the harness cannot
+// judge the signature, i.e. the key is not Ed25519).
+func (w *World) readFromPrior(p *Packet, fp string) (iss, sub, signer string, ok bool) {
+	parts := strings.Split(fp, ".")
+	if len(parts) != 3 {
+		return "", "", "", false
+	}
+
+	hdr, e1 := base64.RawURLEncoding.DecodeString(parts[0])
+	pl, e2 := base64.RawURLEncoding.DecodeString(parts[1])
+	sig, e3 := base64.RawURLEncoding.DecodeString(parts[2])
+
+	if e1 != nil || e2 != nil || e3 != nil {
+		return "", "", "", false
+	}
+
+	var h struct {
+		KID string `json:"kid"`
+		Alg string `json:"alg"`
+	}
+
+	var pay struct {
+		ISS string `json:"iss"`
+		Sub string `json:"sub"`
+	}
+
+	if json.Unmarshal(hdr, &h) != nil || json.Unmarshal(pl, &pay) != nil || h.Alg != "EdDSA" {
+		return "", "", "", false
+	}
+
+	dst := w.agentAt(p.To)
+	if dst == nil {
+		return "", "", "", false
+	}
+
+	cands := []string{pay.ISS}
+	if i := strings.Index(h.KID, "#"); i > 0 {
+		cands = append(cands, h.KID[:i])
+	}
+
+	for _, d := range cands {
+		dr, err := dst.ctx.VDRegistry().Resolve(d)
+		if err != nil || dr.DIDDocument == nil {
+			continue
+		}
+
+		for i := range dr.DIDDocument.VerificationMethod {
+			vm := &dr.DIDDocument.VerificationMethod[i]
+			if (vm.ID == h.KID || dr.DIDDocument.ID+vm.ID == h.KID) && len(vm.Value) == ed25519.PublicKeySize &&
+				ed25519.Verify(ed25519.PublicKey(vm.Value), []byte(parts[0]+"."+parts[1]), sig) {
+				return pay.ISS, pay.Sub, d, true
+			}
+		}
+	}
+
+	return pay.ISS, pay.Sub, "", true
 }
 
 // legacyConn reads the connection member of a legacy request ({DID, DIDDoc}).
